@@ -73,7 +73,7 @@ class Ctx:
         self.plan = []             # decisions to replay
         self.trail = []            # [(SymBool, value, forced)]
         self.solver = None         # set by smt module
-        self.max_decisions = 400
+        self.max_decisions = 4000
         self.nonzero_assumed = []  # denominators assumed nonzero (K elems)
         self._split_cache = {}
         self.stats = {'decisions': 0, 'feas_queries': 0}
@@ -713,10 +713,10 @@ class Sx:
             (m, r, p), c = next(iter(self.t.items()))
             if not m:
                 return Sx.from_k(k_abs(c, ctx), ctx)
+        if any(m for (m, _, _) in self.t):
+            return AbsSx(self)       # |z| of a content-dependent value: only its square is representable
         if self.is_real_syntactic():
             raise NotEncodable('abs of a content-dependent real value')
-        if any(m for (m, _, _) in self.t):
-            return AbsSx(self)       # |z| of a content-dependent complex value: only its square is representable
         n2 = reduce_terms(self.abs2())
         if n2.as_k() is None:
             kc = to_k_complex(n2)
@@ -934,6 +934,14 @@ def _poly_known_positive(poly, ctx, nonneg_ok=True):
     return strict or nonneg_ok
 
 
+def _factor_list(poly):
+    """factor_list with a size guard: large multivariate polynomials are only split into content * primitive part."""
+    if len(poly) > 24 and len(poly.ring.gens) > 3:
+        c, prim = poly.primitive()
+        return c, [(prim, 1)] if prim != 1 else []
+    return poly.factor_list()
+
+
 def k_sqrt(k, ctx):
     """Exact square root of a K element known (or assumed by the caller's domain) to be >= 0."""
     K = ctx.K
@@ -945,7 +953,7 @@ def k_sqrt(k, ctx):
     outside = K.one
     inside = K.one
     for poly, inv in ((num, False), (den, True)):
-        coeff, facs = poly.factor_list()
+        coeff, facs = _factor_list(poly)
         cf = _q2f(coeff)
         # rational coefficient: may be negative -> keep sign inside
         sign = -1 if cf < 0 else 1
@@ -981,7 +989,7 @@ def k_sqrt(k, ctx):
         return outside
     # split the radicand into independently-positive factors where possible
     res = outside
-    coeff, facs = inside.numer.factor_list()
+    coeff, facs = _factor_list(inside.numer)
     cf = _q2f(coeff) / _q2f(inside.denom.LC) if inside.denom.is_ground else None
     if cf is None:
         return res * _sqrt_atom(inside, ctx)
@@ -1020,7 +1028,7 @@ def k_abs(k, ctx):
     K = ctx.K
     res = K.one
     for poly, inv in ((k.numer, False), (k.denom, True)):
-        coeff, facs = poly.factor_list()
+        coeff, facs = _factor_list(poly)
         cf = abs(_q2f(coeff))
         part = ctx.k(cf)
         for f, mult in facs:
@@ -1438,6 +1446,9 @@ class SymBool:
             d = d2
         if f is not None:
             return {'==': f == 0, '!=': f != 0, '<': f < 0, '<=': f <= 0, '>': f > 0, '>=': f >= 0}[op]
+        sg = _constant_sign(d)
+        if sg is not None:
+            return {'==': sg == 0, '!=': sg != 0, '<': sg < 0, '<=': sg <= 0, '>': sg > 0, '>=': sg >= 0}[op]
         if op in ('<', '<=', '>', '>=') and not d.is_real_syntactic():
             if not d.is_real():
                 raise NotEncodable('ordering comparison of complex symbolic values')
@@ -1487,6 +1498,51 @@ class SymBool:
         if self.kind == 'and':
             return _beval(self.a, env) and _beval(self.b, env)
         return _beval(self.a, env) or _beval(self.b, env)
+
+
+def _constant_sign(d):
+    """Sign of a field-level value of the form (monomial in positive parameters) * (expression in numeric constants and
+    sqrt-of-number atoms only), decided numerically (exact data, double evaluation, generous margin); None if not of that form."""
+    k = d.as_k()
+    if k is None or k == 0:
+        return None
+    ctx = d.ctx
+    names = [str(g) for g in k.numer.ring.symbols]
+    const_atoms = set()
+    for nm in ctx.derived_names[:ctx.next_derived]:
+        kind, payload = ctx.derived_def[nm]
+        if kind == 'sqrt' and payload.numer.is_ground and payload.denom.is_ground:
+            const_atoms.add(nm)
+    sign = 1
+    vals = []
+    for poly in (k.numer, k.denom):
+        common = None
+        for mon, c in poly.terms():
+            part = tuple(e if names[i] not in const_atoms else 0 for i, e in enumerate(mon))
+            if common is None:
+                common = part
+            elif part != common:
+                return None
+        for i, e in enumerate(common):
+            if e and not ctx.gen_positive(names[i]):
+                return None
+        env = {}
+        for nm in const_atoms:
+            pl = ctx.derived_def[nm][1]
+            env[nm] = math.sqrt(float(_q2f(pl.numer.LC) / _q2f(pl.denom.LC)))
+        tot = 0.0
+        mag = 0.0
+        for mon, c in poly.terms():
+            v = float(_q2f(c))
+            for i, e in enumerate(mon):
+                if e and names[i] in const_atoms:
+                    v *= env[names[i]] ** e
+            tot += v
+            mag += abs(v)
+        if abs(tot) <= 1e-9 * max(mag, 1e-300):
+            return None
+        vals.append(tot)
+    return 1 if (vals[0] > 0) == (vals[1] > 0) else -1
 
 
 def _beval(b, env):
